@@ -128,10 +128,25 @@ func VerifC19Batch() {
 	bat := c.NewBatch()
 	var want []string
 	var owners []int
+	// optionally one command of the batch names keys of two different nodes: it cannot be routed; the
+	// caller (the sender ignores Put's return value) must hear about it from Exec
+	unroutableAt := verifChoose("unroutableAt", n+1) - 1
 	for i := 0; i < n; i++ {
 		k := keys[verifChoose("key", len(keys))] + fmt.Sprint(i)
-		verifAssert(bat.Put("set", []byte(k), []byte("v")) == nil, "C19.batch.put-error")
 		o := verifOwnerIdx(hash(k), 5461, 10923)
+		if i == unroutableAt {
+			k2 := ""
+			for _, c2 := range keys {
+				if verifOwnerIdx(hash(c2+fmt.Sprint(i)), 5461, 10923) != o {
+					k2 = c2 + fmt.Sprint(i)
+					break
+				}
+			}
+			verifAssume(k2 != "")
+			_ = bat.Put("rename", []byte(k), []byte(k2))
+			continue
+		}
+		verifAssert(bat.Put("set", []byte(k), []byte("v")) == nil, "C19.batch.put-error")
 		owners = append(owners, o)
 		want = append(want, ns[o].address+"/"+k)
 	}
@@ -142,12 +157,17 @@ func VerifC19Batch() {
 			failed = true
 		}
 	}
+	if unroutableAt >= 0 {
+		verifAssert(err != nil, "C19.batch.unroutable-command-silently-dropped")
+		verifCover(true, "batch.unroutable")
+		return
+	}
 	if failed {
 		verifAssert(err != nil, "C19.batch.node-failure-swallowed")
 		return
 	}
-	verifAssert(err == nil && len(replies) == n, "C19.batch.error")
-	for i := 0; i < n && i < len(replies); i++ {
+	verifAssert(err == nil && len(replies) == len(want), "C19.batch.error")
+	for i := 0; i < len(want) && i < len(replies); i++ {
 		verifAssert(replies[i] == want[i], "C19.batch.reply-order-or-owner")
 	}
 	verifReach("batch.done")
